@@ -114,49 +114,54 @@ theorem tth_Bytes2Uint16NoCheck_eq (b : Bytes) :
   unfold Funcs.tth_Bytes2Uint16NoCheck TTH.bytes2Uint16NoCheck
   by_cases h : b.length < 2 <;> simp [h, beU16, TTH.beU16, liftN]
 
-/-! ## the checked readers (offset a Go `int`, length of a slice fits an `int`) -/
+/-! ## the checked readers (offset a Go `int`, length of a slice fits an `int`)
+
+  Case splits are on the semantic conditions (`off < b.length`, `off + 2 ≤ b.length` …) as `Nat` facts; `go_simp` decides
+  every guard of the translation (in wrapped int64, whatever its polarity or the side the constant is on) and of the
+  model (in ℤ) with `omega` from them. -/
 
 theorem tth_Bytes2Uint8_eq (b : Bytes) (off : Nat)
     (hb : b.length < 9223372036854775808) (ho : off < 9223372036854775808) :
     liftEof (Funcs.tth_Bytes2Uint8 b (off : Int)) = TTH.bytes2Uint8 b off := by
   unfold Funcs.tth_Bytes2Uint8 TTH.bytes2Uint8
-  by_cases h : (b.length : Int) - (off : Int) < 1
-  · simp (disch := omega) [wrap_i64_id, len, h, liftEof, eofOut]
-  · have hlt : off < b.length := by omega
-    simp (disch := omega) [wrap_i64_id, len, h, idx_ok, TTH.index, liftEof, eofOut]
+  by_cases h : off < b.length
+  · go_simp [wrap_i64_id, idx_ok, TTH.index, liftEof, eofOut]
+  · go_simp [wrap_i64_id, liftEof, eofOut]
 
 theorem tth_Bytes2Uint16_eq (b : Bytes) (off : Nat)
     (hb : b.length < 9223372036854775808) (ho : off < 9223372036854775808) :
     liftEof (Funcs.tth_Bytes2Uint16 b (off : Int)) = TTH.bytes2Uint16 b off := by
   unfold Funcs.tth_Bytes2Uint16 TTH.bytes2Uint16
-  by_cases h : (b.length : Int) - (off : Int) < 2
-  · simp (disch := omega) [wrap_i64_id, len, h, liftEof, eofOut]
-  · have h2 : ¬ (off > b.length) := by omega
-    have h3 : ¬ (b.length - off < 2) := by omega
-    simp (disch := omega) [wrap_i64_id, len, h, h2, h3, sliceFrom_ok, TTH.sliceFrom, beU16, TTH.beU16,
-      liftEof, eofOut]
+  by_cases h : off + 2 ≤ b.length
+  · go_simp [wrap_i64_id, sliceFrom_ok, TTH.sliceFrom, beU16, TTH.beU16, liftEof, eofOut]
+  · go_simp [wrap_i64_id, liftEof, eofOut]
+
+theorem tth_sliceFrom_panic (b : Bytes) (lo : Int) (h : lo < 0 ∨ lo > (b.length : Int)) :
+    GoSem.sliceFrom b lo = .panic "slice" := by
+  unfold GoSem.sliceFrom len; simp [h]
+
+/-- `take`/`drop` with arithmetically equal counts -/
+theorem tth_take_drop_congr (b : Bytes) (m m' k k' : Nat) (hm : m = m') (hk : k = k') :
+    (b.drop m).take k = (b.drop m').take k' := by subst hm; subst hk; rfl
 
 theorem tth_ReadString2BLen_eq (b : Bytes) (off : Nat)
     (hb : b.length < 9223372036854775808) (ho : off < 9223372036854775808) :
     liftEofS (Funcs.tth_ReadString2BLen b (off : Int)) = TTH.readString2BLen b off := by
-  unfold Funcs.tth_ReadString2BLen TTH.readString2BLen Funcs.tth_Bytes2Uint16 TTH.bytes2Uint16
-  by_cases h : (b.length : Int) - (off : Int) < 2
-  · -- the length prefix is short: io.EOF from Bytes2Uint16
-    simp (disch := omega) [wrap_i64_id, len, h, liftEofS, eofOut]
-  · have h2 : ¬ (off > b.length) := by omega
-    have h3 : ¬ (b.length - off < 2) := by omega
-    have hr := rd16_lt (b.drop off)
+  unfold Funcs.tth_ReadString2BLen TTH.readString2BLen TTH.bytes2Uint16
+  try unfold Funcs.tth_Bytes2Uint16
+  by_cases h : off + 2 ≤ b.length
+  · have hr := rd16_lt (b.drop off)
     generalize hL : rd16 (b.drop off) = L at hr
-    by_cases hs : (b.length : Int) - ((off : Int) + 2) < (L : Int)
+    by_cases hs : off + 2 + L ≤ b.length
+    · go_simp [wrap_i64_id, hL, sliceFrom_ok, slice_ok, TTH.sliceFrom, TTH.slice, beU16, TTH.beU16,
+        liftEofS, eofOut]
+      all_goals first
+        | omega
+        | (refine ⟨?_, by omega⟩; apply tth_take_drop_congr <;> omega)
     · -- the string is short: io.EOF
-      simp (disch := omega) [wrap_i64_id, len, h, h2, h3, hL, hs, sliceFrom_ok, TTH.sliceFrom, beU16,
-        TTH.beU16, liftEofS, eofOut]
-    · have g3 : ¬ (b.length < off + 2 + L) := by omega
-      have g4 : ¬ (off + 2 + L < off + 2) := by omega
-      simp (disch := omega) [wrap_i64_id, len, h, h2, h3, hL, hs, g3, g4, sliceFrom_ok, slice_ok,
-        TTH.sliceFrom, TTH.slice, beU16, TTH.beU16, liftEofS, eofOut]
-      refine ⟨?_, by omega⟩
-      congr 1 <;> (try congr 1) <;> omega
+      go_simp [wrap_i64_id, hL, sliceFrom_ok, TTH.sliceFrom, beU16, TTH.beU16, liftEofS, eofOut]
+  · -- the length prefix is short: io.EOF from Bytes2Uint16
+    go_simp [wrap_i64_id, liftEofS, eofOut]
 
 /-! ## the header predicates -/
 
@@ -164,21 +169,14 @@ theorem tth_IsStreaming_eq (b : Bytes) :
     liftB (Funcs.tth_IsStreaming b) = TTH.isStreaming b := by
   unfold Funcs.tth_IsStreaming TTH.isStreaming
   by_cases h : b.length < 8
-  · have h' : (b.length : Int) < 8 := by omega
-    simp [h, h', len, liftB, liftP]
-  · have h' : ¬ (b.length : Int) < 8 := by omega
-    have h4 : ¬ (4 > b.length) := by omega
-    have h6 : ¬ (6 > b.length) := by omega
-    have k4 : ¬ (b.length - 4 < 2) := by omega
-    have k6 : ¬ (b.length - 6 < 2) := by omega
-    have hb : band .u16 ((rd16 (b.drop 6) : Nat) : Int) 2 = ((rd16 (b.drop 6) &&& 2 : Nat) : Int) :=
+  · go_simp [liftB, liftP]
+  · have hb : band .u16 ((rd16 (b.drop 6) : Nat) : Int) 2 = ((rd16 (b.drop 6) &&& 2 : Nat) : Int) :=
       band_u16_nat (rd16 (b.drop 6)) 2 (rd16_lt _) (by omega)
     by_cases hm : rd16 (b.drop 4) = 4096
-    · simp (disch := omega) [h, h', h4, h6, k4, k6, hm, hb, len, sliceFrom_ok, TTH.sliceFrom, beU16,
+    · by_cases hz : rd16 (b.drop 6) &&& 2 = 0 <;>
+      go_simp [hm, hb, hz, sliceFrom_ok, TTH.sliceFrom, beU16,
         TTH.beU16, Facts.ttSize32, Facts.ttSize16, Facts.ttMagic, Facts.ttFlagsStreaming, liftB, liftP]
-      all_goals (by_cases hz : rd16 (b.drop 6) &&& 2 = 0 <;> simp [hz])
-    · have hm' : ¬ (((rd16 (b.drop 4) : Nat) : Int) = 4096) := by omega
-      simp (disch := omega) [h, h', h4, k4, hm, hm', len, sliceFrom_ok, TTH.sliceFrom, beU16, TTH.beU16,
+    · go_simp [hm, sliceFrom_ok, TTH.sliceFrom, beU16, TTH.beU16,
         Facts.ttSize32, Facts.ttMagic, liftB, liftP]
 
 theorem tth_IsTTHeader_eq (b : Bytes) :
@@ -186,20 +184,20 @@ theorem tth_IsTTHeader_eq (b : Bytes) :
   unfold Funcs.tth_IsTTHeader TTH.isTTHeader
   by_cases h : b.length < 4
   · -- `flagBuf[4:]` panics "slice"
-    have h4 : (4 > b.length) := by omega
-    have h4i : ((4 : Int) > (b.length : Int)) := by omega
-    simp [h4, h4i, len, GoSem.sliceFrom, TTH.sliceFrom, Facts.ttSize32, liftB, liftP]
-  · have h4 : ¬ (4 > b.length) := by omega
-    by_cases k : b.length - 4 < 4
+    go_simp [tth_sliceFrom_panic, TTH.sliceFrom, Facts.ttSize32, liftB, liftP]
+  · by_cases k : b.length < 8
     · -- `Uint32(flagBuf[4:])` panics "index"
-      simp (disch := omega) [h4, k, sliceFrom_ok, TTH.sliceFrom, beU32, TTH.beU32, Facts.ttSize32,
-        liftB, liftP]
+      go_simp [sliceFrom_ok, TTH.sliceFrom, beU32, TTH.beU32, Facts.ttSize32, liftB, liftP]
     · have hb : band .u32 ((rd32 (b.drop 4) : Nat) : Int) 4294901760
           = ((rd32 (b.drop 4) &&& 4294901760 : Nat) : Int) :=
         band_u32_nat (rd32 (b.drop 4)) 4294901760 (rd32_lt _) (by omega)
-      simp (disch := omega) [h4, k, hb, sliceFrom_ok, TTH.sliceFrom, beU32, TTH.beU32, Facts.ttSize32,
+      by_cases hx : rd32 (b.drop 4) &&& 4294901760 = 268435456
+      · have hx' : ((rd32 (b.drop 4) &&& 4294901760 : Nat) : Int) = 268435456 := by omega
+        go_simp [hb, hx, hx', sliceFrom_ok, TTH.sliceFrom, beU32, TTH.beU32, Facts.ttSize32,
+          Facts.ttMagicMask, Facts.ttMagic, liftB, liftP]
+      · have hx' : ¬ ((rd32 (b.drop 4) &&& 4294901760 : Nat) : Int) = 268435456 := by omega
+        go_simp [hb, hx, hx', sliceFrom_ok, TTH.sliceFrom, beU32, TTH.beU32, Facts.ttSize32,
         Facts.ttMagicMask, Facts.ttMagic, liftB, liftP]
-      all_goals (exact decide_eq_decide.mpr (by omega))
 
 /-! ## the generated functions compute (non-vacuity) -/
 
